@@ -77,6 +77,8 @@ def generate(rng, tier, index):
                     th['xeq'] = [x * rng.choice([0.9, 1.0, 1.5, 3.0]) for x in cfg['x0']] if rr < 0.08 else [x * 1.0001 for x in th['xeq']]
             ops = W.gen_solve_ops(rng)
             cap = 250
+            if rng.random() < 0.25:
+                cfg['record_psd'] = True
         else:
             kind = rng.choice(['real_alzr', 'real_alzr', 'real_nicral', 'real_almgsi'])
             cfg = W.real_config(kind, rng)
